@@ -241,6 +241,29 @@ void run(size_t idx) {
 		ApiModel m = buildApiModel(seed, (int)idx);
 		R_caseDesc("api:" + m.desc);
 		if (!m.ok) { R_stat("api_model_rejected"); return; }
+		if (idx % 6 == 0 && m.nif->GetRootNode()) {
+			// Oblivion stores strings inline: texts at the limit of what the reader takes in one piece (2048 characters)
+			static const size_t LEN[] = {2046, 2047, 2048, 255, 256};
+			size_t len = LEN[(idx / 6) % 5];
+			auto sed = std::make_unique<NiStringExtraData>();
+			sed->name.get() = "UPB";
+			std::string text;
+			for (size_t i = 0; i < len; i++) text += (char)('a' + (i * 11 + len) % 26);
+			sed->stringData.get() = text;
+			m.nif->AssignExtraData(m.nif->GetRootNode(), std::move(sed));
+			NifFile cp(*m.nif);
+			m.bytes = saveNif(cp, true);
+			m.desc += fmt(" [inline string of %zu characters]", len);
+			R_caseDesc("api:" + m.desc);
+			// the text itself has to come back (a shifted parse can still reach a fixed point)
+			NifFile re;
+			bool found = false;
+			if (loadNif(re, m.bytes) == 0)
+				for (uint32_t b = 0; b < re.GetHeader().GetNumBlocks(); b++)
+					if (auto x = re.GetHeader().GetBlock<NiStringExtraData>(b))
+						if (x->stringData.get() == text) found = true;
+			if (!found) R_viol("inline-string", fmt("OB/%zu", len), "api:" + m.desc + fmt(": a string of %zu characters written by the library is not read back", len));
+		}
 		roundTrip(m.bytes, "api:" + m.desc, "", 0, nullptr);
 		if (idx == 0) R_sample(fmt("{\"source\":\"api\",\"model\":\"%s\",\"bytes\":%zu}", jesc(m.desc).c_str(), m.bytes.size()));
 	}
